@@ -77,7 +77,7 @@ class C15(Check):
     required_theorems = [
         "precedence_matches_reference", "operator_typing", "operator_typing_heap", "deterministic", "total_or_error",
         "no_internal_error", "depth_bounded", "depth_bounded_program", "recursion_error_at_limit", "and_or_short_circuit",
-        "scoping_var_does_not_leak", "scoping_use_captures_at_definition", "loop_control", "try_catches_script_errors",
+        "scoping_var_does_not_leak", "scoping_use_captures_at_definition", "loop_control", "try_catches_script_errors", "array_join_counterexample",
     ]
 
     # ------------------------------------------------------------------ translator
@@ -148,6 +148,8 @@ class C15(Check):
             n, i = int(toks[i + 1]) + 1, i + 2
         elif t == "for":
             head, n, i = [t, toks[i + 1], toks[i + 2]], 2, i + 3
+        elif t == "ifc":
+            head, n, i = [t, toks[i + 1], toks[i + 2]], 2 * int(toks[i + 1]) + (1 if toks[i + 2] == "1" else 0), i + 3
         elif t in ("fn", "fndecl"):
             j = i + 1
             if t == "fndecl":
@@ -191,7 +193,7 @@ class C15(Check):
         def candidates(t, path=()):
             if isinstance(t, list):
                 return
-            if t["h"][0] == "while":      # never edit a loop: a removed increment makes both worlds spin
+            if t["h"][0] in ("while", "ifc"):      # never edit a loop / an else-if chain (its shape is in the head): a removed increment makes both worlds spin
                 return
             for i, c in enumerate(t["k"]):
                 yield path + (i,)
@@ -280,7 +282,10 @@ class C15(Check):
                     "boundary, 700 quick / 5000 thorough), three themed families checked by spec clauses against the reference's answer (loops of up to 400 "
                     "CAUGHT exceptions of 8 kinds followed by nested expressions: depth errors only beyond real nesting 300; use() closures called "
                     "2-4 times that modify captured variables/locals or recurse through an argument: per-call copies; array - array over mixed element "
-                    "types: never raises), each printed minimally per the generated precedence table and fully parenthesised, evaluated "
+                    "types: never raises; if/else-if chains of 2-5 branches with overlapping conditions with and without else: first true condition in source "
+                    "order; errors raised inside dictionary literals (also nested, also in functions) and caught in the same frame, followed by plain "
+                    "assignments/reads and uses of this: this restored; ten String methods on empty-string receivers (literal, variable, computed): "
+                    "the method sees \"\" as this), each printed minimally per the generated precedence table and fully parenthesised, evaluated "
                     "3x in forked children; plus hostile texts (token/byte mutations of generated programs, arbitrary byte strings). evaluations = "
                     "3 x programs + hostile texts; non-trivial = programs with more than 6 AST tokens whose model outcome was compared (value or script error)")
         raw = open(save, errors="replace").read().splitlines()
@@ -321,7 +326,8 @@ class C15(Check):
                     return any(x.startswith(kind) and (clause in x) and (want in x) and "impl=syntax" not in x for x in dout)
 
                 shown = case
-                if case.startswith("P ") and still(case):
+                # (the join clause only looks at the family tag and the outcome: every shrunk variant that raises would satisfy it)
+                if case.startswith("P ") and clause != "array_join_total_on_scalars" and still(case):
                     shown = self._shrink_p(harness, driver, case, still)
                     _, sl = self._replay_lines(harness, driver, [shown])
                     shown = sl[0] if sl else shown
@@ -341,6 +347,10 @@ class C15(Check):
     # ------------------------------------------------------------------ known findings (narrow classifiers over the minimised witness)
     def matches_known(self, entry, finding):
         d = finding.classifier_data or {}
+        if finding.kind == "spec" and entry.get("classifier") == "c15_join_non_string_scalars":
+            # exactly: the join clause, on a program that joins an array literal containing a Boolean
+            return "clause=array_join_total_on_scalars" in d.get("driver", "") and \
+                re.search(r"\[[^\]]*\b(true|false)\b[^\]]*\]\.join\(", d.get("text", "")) is not None
         if finding.kind != "spec" or "clause=no_crash" not in d.get("driver", ""):
             return False
         text, obs, cls = d.get("text", ""), d.get("obs", ""), entry.get("classifier")
